@@ -243,6 +243,26 @@ def check_construction(rep, r):
                                                     'the container, in order (and no TypeError was raised)', 'observed_length': len(got),
                                                     'expected_length': len(want)})
                 rep.count()
+    # a TRSList built / extended from a TractList (and from a PLSSDesc) converts every tract to a TRS
+    for src_name, src in (('TractList', TractList(good_t + [t1])), ('PLSSDesc', d), ('PLSSDesc.tracts', d.tracts)):
+        want = [t.trs for t in src]
+        for how in ('constructor', 'extend', '+=', '+', 'from_multiple'):
+            if how == 'constructor':
+                got = TRSList(src)
+            elif how == 'extend':
+                got = TRSList()
+                got.extend(src)
+            elif how == '+=':
+                got = TRSList()
+                got += src
+            elif how == '+':
+                got = TRSList() + src
+            else:
+                got = TRSList.from_multiple(src)
+            if [e.trs for e in got] != want or not all(isinstance(e, TRS) for e in got):
+                rep.violation('failing-input', {'op': f'TRSList {how} from a {src_name}', 'why': 'elements are not all TRS objects of the '
+                                                'supplied tracts, in order', 'types': sorted({type(e).__name__ for e in got})})
+            rep.count()
     # a container built from another container of the same class is a new list: later in-place operations on
     # either one must not make the other lose (or gain) elements
     for cls, elems_ in ((TractList, good_t + [t1]), (TRSList, ['154n97w14', '1n1w01', 'XXXzXXXzXX', '154n97w14'])):
